@@ -74,7 +74,7 @@ func runPairing(c *mon.Ctx, p *pairings.Pairing) {
 			cases = append(cases, tc{[]*big.Int{a}, []*big.Int{b}, "k1"})
 		}
 	}
-	maxK := c.Pick(5, 7)
+	maxK := c.Pick(5, 9)
 	for k := 2; k <= maxK; k++ {
 		// random
 		mkv := func() []*big.Int {
